@@ -7,7 +7,7 @@ package event
 @*/
 
 /*@ theory eventfilters
-;; theory filters k8s
+;; theory filters filtereq k8s
 ;; uses core/v1.ObjectReference
 (declare-fun |F!core/v1.Event!InvolvedObject| (V) |S!core/v1.ObjectReference|)
 (declare-fun |F!types/event.involvedFilter!kind| (V) Str)
@@ -23,12 +23,18 @@ package event
 (assert (forall ((f V) (o V)) (! (=> (= (dyntype f) |ty!*types/event.involvedFilter|)
     (= (accept f o) (involved o (|F!types/event.involvedFilter!kind| f) (|F!types/event.involvedFilter!ns| f) (|F!types/event.involvedFilter!name| f))))
     :pattern ((accept f o)))))
+; C17 completeness: involved-object filters built from the same kind, namespace and name
+(assert (forall ((a V) (b V)) (! (=> (and (not (= a vnil)) (not (= b vnil)) (= (dyntype a) |ty!*types/event.involvedFilter|) (= (dyntype b) |ty!*types/event.involvedFilter|))
+    (= (bs a b) (and (= (|F!types/event.involvedFilter!kind| a) (|F!types/event.involvedFilter!kind| b))
+                     (= (|F!types/event.involvedFilter!ns| a) (|F!types/event.involvedFilter!ns| b))
+                     (= (|F!types/event.involvedFilter!name| a) (|F!types/event.involvedFilter!name| b))))) :pattern ((bs a b)))))
 @*/
 
 /*@ func types/event.InvolvedFilter
   props C19 C17
   theory eventfilters
-  ensures [is-involved-filter] (and (not (= result vnil)) (= (dyntype result) |ty!*types/event.involvedFilter|))
+  ensures [is-involved-filter] (and (not (= result vnil)) (= (dyntype result) |ty!*types/event.involvedFilter|)
+        (= (|F!types/event.involvedFilter!kind| result) {kind}) (= (|F!types/event.involvedFilter!ns| result) {ns}) (= (|F!types/event.involvedFilter!name| result) {name}))
   ensures [events-of-the-object] (forall ((o V)) (= (accept result o) (involved o {kind} {ns} {name})))
 @*/
 /*@ func (*types/event.involvedFilter).Accept
@@ -43,4 +49,17 @@ package event
   theory eventfilters
   implements filter.ComparableFilter.Equals
   requires [recv] (not (= {f} vnil))
+@*/
+
+/*@ lemma C17-built-twice-InvolvedFilter
+  props C17
+  theory eventfilters
+  var kind : Str
+  var ns : Str
+  var nm : Str
+  call r1 := types/event.InvolvedFilter kind ns nm
+  call r2 := types/event.InvolvedFilter kind ns nm
+  call eq := filter.FiltersEqual r1 r2
+  prove [built-the-same-way] (bs r1 r2)
+  prove [compare-equal] eq
 @*/
